@@ -14,6 +14,8 @@ CONSTANTS
   MaxBlocks = 3
   MaxReorg = 3
   MaxCrashes = 0
+  MaxDowns = 0
+  MaxSkips = 0
   FreeChoice = FALSE
 INVARIANT TypeOK
 INVARIANT RowsEqualCanonical
